@@ -155,6 +155,13 @@ func (rs *RecordSet) ReadFrom(r io.Reader) (int64, error) {
 		return 4, nil
 	}
 
+	if int(size) > d.remain && limit != 4 {
+		// The record set is embedded in a frame (r is the frame's decoder)
+		// and announces more bytes than the frame has left: reading on would
+		// consume the following frames and leave d.remain negative.
+		return 4, fmt.Errorf("record set of size %d exceeds the %d bytes remaining in the frame: %w", size, d.remain, io.ErrUnexpectedEOF)
+	}
+
 	stream := &RecordStream{
 		Records: make([]RecordReader, 0, 4),
 	}
